@@ -105,8 +105,12 @@ Fixpoint list_eqb {A B} (e : A -> B -> bool) (a : list A) (b : list B) : bool :=
 Definition probe_eqb (m i : probe) : bool :=
   bool_decide (p_rows m = p_rows i) && bool_decide (p_lf m = p_lf i) &&
   bool_decide (p_lr m = p_lr i) && Nat.eqb (p_ld m) (p_ld i) &&
-  bool_decide (sort_ents (p_se m) = sort_ents (p_se i)) &&
-  (p_sb i || sorted_by_val (p_se i)) &&      (* a failed populate leaves the slice unsorted *)
+  (* a failed populate leaves the slice unsorted: binary-search insert/remove on it then depend on
+     the Go map order in which a commit flushes its delta, so the content of a sorted index that
+     reports invalid (and is never served) is not compared; the model continues from the
+     implementation's slice (resync) *)
+  (p_sb m && p_sb i ||
+   bool_decide (sort_ents (p_se m) = sort_ents (p_se i)) && sorted_by_val (p_se i)) &&
   bool_decide (p_sr m = p_sr i) && Nat.eqb (p_sd m) (p_sd i) &&
   list_eqb txp_eqb (p_txs m) (p_txs i) &&
   Bool.eqb (p_lb m) (p_lb i) && Bool.eqb (p_sb m) (p_sb i).
